@@ -24,6 +24,10 @@ type C struct {
 	// explicitly NOT tagged: must behave exactly like untagged fields
 	NoRetry   func(ctx context.Context, tok int64) (int64, error) `retry:"false" rpc_method:"NS.Echo"`
 	NotNotify func(tok int64) error                               `notify:"false" rpc_method:"NS.Echo"`
+	// other signature shapes of an untagged function: no error result, no context
+	Plain    func(tok int64) int64                     `rpc_method:"NS.Echo"`
+	PlainCtx func(ctx context.Context, tok int64) int64 `rpc_method:"NS.Echo"`
+	NoCtx    func(tok int64) (int64, error)            `rpc_method:"NS.Echo"`
 }
 
 type wireReq struct {
@@ -133,6 +137,8 @@ func faultyPeer(l *verif.Listener, st *stats, kind, pos, failDials int, second i
 	}
 }
 
+var errNoErrorResult = errors.New("(function has no error result)")
+
 type outcome struct {
 	returns int
 	val     int64
@@ -226,16 +232,33 @@ func HarnessRetry() {
 	verif.Assume(tok != 777)
 	tagged := verif.Bool("tagged")
 	var a outcome
+	shape := 0
 	if tagged {
 		go call(c.Retry, tok, &a)
 	} else if verif.Bool("explicit_false_tag") {
 		go call(c.NoRetry, tok, &a)
 	} else {
-		go call(c.Echo, tok, &a)
+		// every signature shape of an untagged function behaves alike: the shape decides only how
+		// the failure is reported (error result, or the zero value when there is none)
+		shape = verif.Choice("shape", 4)
+		switch shape {
+		case 0:
+			go call(c.Echo, tok, &a)
+		case 1:
+			go call(func(_ context.Context, t int64) (int64, error) { return c.NoCtx(t) }, tok, &a)
+		case 2:
+			go call(func(_ context.Context, t int64) (int64, error) { return c.Plain(t), errNoErrorResult }, tok, &a)
+		case 3:
+			go call(func(ctx context.Context, t int64) (int64, error) { return c.PlainCtx(ctx, t), errNoErrorResult }, tok, &a)
+		}
 	}
 	verif.Quiesce()
 	verif.Assert(a.returns == 1, "call-returns")
-	if tagged {
+	if shape >= 2 {
+		verif.Class("shape=no-error-result")
+		verif.Assert(a.val == 0, "function-without-error-result-returns-zero-on-connection-loss")
+		verif.Assert(st.frames[tok] == 1, "untagged-call-never-resent")
+	} else if tagged {
 		verif.Assert(a.err == nil && a.val == tok, "retry-tagged-call-rides-out-the-outage")
 		verif.Assert(st.frames[tok] == 2, "retry-resends-exactly-once-per-lost-attempt")
 	} else {
